@@ -30,6 +30,7 @@ def cases(tier, seed):
                     if alias != "BlockErrorRate" and (form == "complex" or shape != "2x4"):
                         continue
                     yield f"C16|bler|bfs|{alias},bs={bs},{form},{shape}", {"kind": "bfs", "metric": alias, "bs": bs, "form": form, "shape": shape, "tier": tier}
+    yield "C16|ber|all-counts", {"kind": "counts", "tier": tier}
     yield "C16|ber|partition", {"kind": "partition", "metric": "ber", "tier": tier}
     for bs in (None, 2, 4):
         yield f"C16|bler|partition|bs={bs}", {"kind": "partition", "metric": "bler", "bs": bs, "tier": tier}
@@ -43,7 +44,7 @@ def component_of(p):
 
 
 def execute(p, res):
-    {"bfs": bfs_case, "partition": partition_case, "oneshot": oneshot_case}[p["kind"]](p, res)
+    {"bfs": bfs_case, "partition": partition_case, "oneshot": oneshot_case, "counts": counts_case}[p["kind"]](p, res)
 
 
 # ----------------------------------------------------------------------------- helpers
@@ -200,6 +201,39 @@ def bfs_case(p, res):
     res.bump("bfs_states", st["states"])
     res.bump("bfs_transitions", st["transitions"])
     res.sample({"metric": metric, "block_size": bs, "form": form, "shape": shape, "depth": depth, "states": st["states"], "transitions": st["transitions"]})
+
+
+def counts_case(p, res):
+    """every (errors, bits) pair with bits <= 64 (quick) / 128 (thorough) as ONE update on a fresh metric, and as the second of two updates:
+    the accumulated counters are exact integers (no float round trip), compute() is the exact fraction"""
+    import torch
+    from kaira.metrics.signal.ber import BitErrorRate
+    from kaira.metrics.signal.bler import BlockErrorRate
+    top = 64 if p["tier"] == "quick" else 128
+    nb = 0
+    for n in range(1, top + 1):
+        x = torch.zeros(1, n)
+        for e in range(0, n + 1):
+            y = x.clone()
+            y[0, :e] = 1.0
+            m = BitErrorRate()
+            m.update(x, y)
+            res.ev(1, nontrivial=1 if e else 0, transitions=2)
+            if (int(m.error_bits), int(m.total_bits)) != (e, n) or not close(float(m.compute()), e, n):
+                nb += 1
+                if nb <= 3:
+                    res.viol("ber", f"n={n},e={e}", "count", f"one update with {e} differing bits of {n}: counters ({int(m.error_bits)}, {int(m.total_bits)}), compute() = {float(m.compute())}", {"n": n, "e": e})
+            m.update(x, y)
+            if (int(m.error_bits), int(m.total_bits)) != (2 * e, 2 * n):
+                nb += 1
+                if nb <= 3:
+                    res.viol("ber", f"n={n},e={e}", "stream=oneshot", f"two updates with {e}/{n}: counters ({int(m.error_bits)}, {int(m.total_bits)})", {"n": n, "e": e})
+            if n % 3 == 0 and e % 3 == 0:
+                b = BlockErrorRate(block_size=3)
+                b.update(x, y)
+                if (int(b.error_blocks), int(b.total_blocks)) != (e // 3, n // 3) or not close(float(b.compute()), e // 3, n // 3):
+                    res.viol("bler", f"n={n},e={e}", "count", f"block counters ({int(b.error_blocks)}, {int(b.total_blocks)}) for {e // 3} bad blocks of {n // 3}")
+    res.sample({"pairs": top * (top + 3) // 2})
 
 
 def partition_case(p, res):
